@@ -411,10 +411,17 @@ def r4(ctx, cfg):
         from vlib import pipeline
         parts = pipeline.byte_parts(P, F, f, P.ret(f))
         d = "unrecognised" if parts is None else " ++ ".join(fmt(x)[:50] for x in parts)
-        ok = parts is not None and len(parts) == 2 and is_param(parts[1], "namespace")
-        if ok:
-            e0 = peel(parts[0])
-            ok = e0[0] == "call" and e0[1] == LP + "encode_length" and is_param(e0[2][0], "namespace")
+        def is_len_code(x):
+            x = peel(x)
+            return x[0] == "call" and x[1] == LP + "encode_length" and is_param(x[2][0], "namespace")
+        ok = parts is not None and len(parts) in (2, 3) and is_param(parts[-1], "namespace")
+        if ok and len(parts) == 2:
+            ok = is_len_code(parts[0])
+        elif ok:
+            # the two bytes of encode_length(namespace) pushed one by one, in order
+            b0, b1 = parts[0], parts[1]
+            ok = b0[0] == "byte" and b1[0] == "byte" and [peel(x[1])[2:] for x in (b0, b1)] == [(0,), (1,)] and \
+                all(peel(x[1])[0] == "index" and is_len_code(peel(x[1])[1]) for x in (b0, b1))
         ctx.ob(R, key, "prefix=encode_length(ns)++ns", ok, "to_length_prefixed builds %s" % d, fn=f, sample=d[:200])
     key = LP + "to_length_prefixed_nested"
     f = ctx.need_fn(R, key)
